@@ -132,6 +132,30 @@ Theorem c19_finish_values : forall gh gsx (env : benv) qc ids ms g idx out r ncl
   nth k (hc (denote (mnq qc) ncl out)) None = nth k (hc (denote (mnq qc) ncl (mdata r))) None.
 Proof. exact finish_values. Qed.
 
+(* sub_ok: ResetPasses.wf_instr on every instruction (indices in range, Reset/Measure arities) plus the arities
+   QuantumCircuit.append enforces for SingleQubitQPDGate / TwoQubitQPDGate / QPDMeasure.  Under it the reference circuit
+   EXISTS whenever the subexperiment does and IS well-formed (on the subexperiment's own classical bits, mnc r): the
+   wf hypothesis of c19_finish_values is discharged. *)
+Theorem c19_reference_total : forall gh gsx (env : benv) qc ids ms g idx out,
+  valid env (mdata qc) ids ms -> sub_ok (mnq qc) (mnc qc) (mdata qc) = true ->
+  finish gh gsx env qc ids ms g idx = Ok out ->
+  exists r, reference gh gsx env qc ids ms g idx = Ok r /\ mnq r = mnq qc /\ wf (mnq qc) (mnc r) (mdata r) = true.
+Proof. exact reference_total. Qed.
+
+(* THE SECOND CLAUSE on the model, for ARBITRARY subcircuits (any bases - Reset anywhere in their sequences -, re-used
+   qubits, user resets, any observable group, any map choice): every returned subexperiment has no Reset first, last or
+   doubled on any wire, and every classical bit except the placeholder bit of an identity group carries the Herbrand term
+   it has in the un-optimised subexperiment.  No no_reuse, no reset-free-basis hypothesis. *)
+Theorem c19_second_clause : forall gh gsx (env : benv) qc ids ms g idx out,
+  valid env (mdata qc) ids ms -> sub_ok (mnq qc) (mnc qc) (mdata qc) = true ->
+  finish gh gsx env qc ids ms g idx = Ok out ->
+  (no_leading_reset out /\ no_trailing_reset out /\ no_double_reset out) /\
+  exists r, reference gh gsx env qc ids ms g idx = Ok r /\
+    wf (mnq qc) (mnc r) (mdata r) = true /\
+    forall k, (idx = [] -> k <> mnc qc) ->
+      nth k (hc (denote (mnq qc) (mnc r) out)) None = nth k (hc (denote (mnq qc) (mnc r) (mdata r))) None.
+Proof. exact second_clause. Qed.
+
 (* ------------------------------------------------------------------------------------------------
    non-vacuity.  env = [move basis]; gates: 0 = h (also the suffix's H), 1 = sx, 2 = x, 10 = cx, 11 = ry *)
 Definition exEnv : benv := [move_basis].
@@ -154,10 +178,11 @@ Proof. repeat split; vm_compute; reflexivity. Qed.
 
 Example c19_ex_reuse_hyps :
   valid exEnv (mdata exChain) [[1]; [3]] [2; 7]%Z /\ sub_wf 2 (mdata exChain) = true /\
+  sub_ok (mnq exChain) (mnc exChain) (mdata exChain) = true /\
   (exists r, reference 0 1 exEnv exChain [[1]; [3]] [2; 7]%Z [3; 0] [0] = Ok r /\ wf 2 3 (mdata r) = true /\
              count_resets (mdata r) = 4).
 Proof.
-  split; [apply validb_sound; vm_compute; reflexivity|]. split; [vm_compute; reflexivity|].
+  split; [apply validb_sound; vm_compute; reflexivity|]. split; [vm_compute; reflexivity|]. split; [vm_compute; reflexivity|].
   eexists. split; [vm_compute; reflexivity|]. split; vm_compute; reflexivity.
 Qed.
 
@@ -218,6 +243,8 @@ Print Assumptions c19_values_unaffected.
 Print Assumptions c19_repair_values.
 Print Assumptions c19_finish_postconditions.
 Print Assumptions c19_finish_values.
+Print Assumptions c19_reference_total.
+Print Assumptions c19_second_clause.
 
 (* ------------------------------------------------------------------------------------------------
    (4) circuits produced by cut_wires (Model/CutWires.v, the C03 model) satisfy no_reuse: the Move placeholder of a
@@ -414,3 +441,42 @@ Proof. repeat split; reflexivity. Qed.
 Print Assumptions c19_facts_move_table.
 Print Assumptions c19_facts_move_shape.
 Print Assumptions c19_facts_order.
+
+(* ------------------------------------------------------------------------------------------------
+   (6) which bases contain a Reset.  Model/Bases.v is C02's model of qpd/decompositions.py (qpdbasis_from_instruction: the
+   20 registered names and the KAK path; tied to the source by C02's correspondence and facts); [circ_basis] turns its
+   terms into the basis form of the splice model.  Among EVERYTHING qpdbasis_from_instruction can return only `move`
+   contains a Reset, and `move` is Move-like: the hypothesis "every placeholder's basis has class 0 or 1" of no_reuse
+   (part of [allowed]) holds for every environment entry that comes from the registry - in particular for the gates
+   partition_problem / cut_gates cut themselves. *)
+From CKT Require Import Model.Bases Model.ResetFreeBases Proofs.ResetFreeBases.
+
+Theorem c19_registry_bases_class : forall g b, Bases.basis_of g = Ok b ->
+  class_of (circ_basis b) = if String.eqb (g_name g) "move" then 1 else 0.
+Proof. exact registry_class. Qed.
+
+Theorem c19_env_entry_class : forall (env : benv) k g b, Bases.basis_of g = Ok b -> nth k env [] = circ_basis b ->
+  basis_class env k = if String.eqb (g_name g) "move" then 1 else 0.
+Proof. exact env_entry_class. Qed.
+
+(* all 21 tables by name (the 20 registered names, in registration order, and the KAK path) *)
+Theorem c19_all_bases_classes :
+  map fst all_bases = (registered ++ ["<kak>"])%list /\
+  map (fun nb => class_of (circ_basis (snd nb))) all_bases =
+    [0; 0; 0; 0; 0; 0; 0; 0; 0; 0; 0; 0; 0; 0; 0; 0; 0; 0; 0; 1; 0].
+Proof. split; [reflexivity|vm_compute; reflexivity]. Qed.
+
+(* C02's `move` table and the one pinned above to the source (c19_facts_move_table) are the same table *)
+Theorem c19_move_table_agrees_with_c02 : circ_basis Bases.move_basis = ResetFree.move_basis.
+Proof. exact move_table_agrees. Qed.
+
+Example c19_ex_registry :
+  class_of (circ_basis (match Bases.basis_of (mkG "cx" true 2 true true true) with Ok b => b | _ => mkPB [] [] [] end)) = 0 /\
+  class_of (circ_basis (match Bases.basis_of (mkG "move" false 2 true true true) with Ok b => b | _ => mkPB [] [] [] end)) = 1 /\
+  class_of (circ_basis (match Bases.basis_of (mkG "my_unitary" true 2 true true false) with Ok b => b | _ => mkPB [] [] [] end)) = 0.
+Proof. repeat split; vm_compute; reflexivity. Qed.
+
+Print Assumptions c19_registry_bases_class.
+Print Assumptions c19_env_entry_class.
+Print Assumptions c19_all_bases_classes.
+Print Assumptions c19_move_table_agrees_with_c02.
